@@ -5,6 +5,7 @@ mod rt;
 mod doubles;
 mod lin;
 mod promparse;
+mod dsdparse;
 mod props;
 
 fn main() {
